@@ -554,6 +554,38 @@ def do_copy(env, st, i):
     return pairs
 
 
+@step('rewrap')
+def do_rewrap(env, st, i):
+    """the same content through the public constructor, over storage that is a VIEW of a larger buffer
+    (as the arrays of get_single(copy=False) and of maps built from slices are): a content-equal map
+    whose storage array cannot be resized in place.  Bit-packed maps are copied instead."""
+    h, out = st['h'], st['out']
+    m = env.maps[h]
+    meta = env.meta[h]
+    if meta.kind == 'packed':
+        res, err = run_api(i, 'copy', lambda: m.copy())
+    else:
+        def build():
+            sm = m._sparse_map
+            pad = int(st.get('pad', 3))
+            buf = np.zeros((sm.shape[0] + pad,) + tuple(sm.shape[1:]), dtype=sm.dtype)
+            buf[:sm.shape[0]] = sm
+            kw = dict(cov_map=m._cov_map.copy(), sparse_map=buf[:sm.shape[0]], nside_sparse=m.nside_sparse,
+                      sentinel=m._sentinel)
+            if meta.kind == 'rec':
+                kw['primary'] = m.primary
+            return HealSparseMap(**kw)
+        res, err = run_api(i, 'HealSparseMap(cov_map=, sparse_map=view)', build)
+    if err:
+        return fail(i, err)
+    env.put(out, res)
+    env.meta[out].tol = meta.tol
+    env.meta[out].transform = meta.transform
+    pairs = meta_check(i, 'rewrap', describe(res), describe(m))
+    pairs.append(([[24], [h], [out]], expect_ok(i, 'rewrap')))
+    return pairs
+
+
 # ---------------------------------------------------------------- write / read (C03)
 TMPROOT = None
 
@@ -1068,9 +1100,15 @@ def do_moc(env, st, i):
     if covered.max() > 1:
         pairs += fail(i, 'MOC cells overlap')
     if sorted(np.where(covered > 0)[0].tolist()) != vp:
+        vpset = set(vp)
+        extra = []
+        for p in np.where(covered > 0)[0]:
+            if int(p) not in vpset:
+                extra.append(int(p))
+                if len(extra) >= 10:
+                    break
         pairs += fail(i, 'the cells of the MOC file do not cover exactly the valid pixels',
-                      impl=dict(extra=[int(p) for p in np.where((covered > 0))[0] if p not in set(vp)][:10],
-                                missing=[p for p in vp if covered[p] == 0][:10]))
+                      impl=dict(extra=extra, missing=[p for p in vp if covered[p] == 0][:10]))
     if any(o < mn for o, _, _ in cells):
         pairs += fail(i, 'a MOC cell is coarser than the coverage resolution')
     # read back
